@@ -47,19 +47,12 @@ impl PostConversionLinter for BuiltInLinter {
     }
 
     fn visit_expression(&mut self, expr_pos: &ExpressionPos) -> Result<(), LintErrorPos> {
-        let pos = expr_pos.pos();
+        // first the nested expressions (operands, parenthesis, arguments, array indices)
+        self.visit_nested_expressions(&expr_pos.element)?;
         match &expr_pos.element {
             Expression::BuiltInFunctionCall(built_in_function, args) => {
-                for x in args {
-                    self.visit_expression(x)?;
-                }
-                lint_function_call(built_in_function, pos, args)
+                lint_function_call(built_in_function, expr_pos.pos(), args)
             }
-            Expression::BinaryExpression(_, left, right, _) => {
-                self.visit_expression(left)?;
-                self.visit_expression(right)
-            }
-            Expression::UnaryExpression(_, child) => self.visit_expression(child),
             _ => Ok(()),
         }
     }
